@@ -240,10 +240,10 @@ V("C04", "C04.R14", "c04-callback-result-kind-not-imported", "shroud/wrapf.py",
                             rtypemap.f_c_module or rtypemap.f_module)
 """, "", "fire", "result-import")
 V("C16", "C16.R1", "c16-description-unsplit-without-trailing-newline", "shroud/util.py",
-  """        lines = str(text).split("\\n")
+  """        lines = str(text).expandtabs().split("\\n")
         if lines[-1] == "" and (len(lines) > 1 or not tag):
             lines.pop()  # remove trailing newline
-""", """        desc = str(text)
+""", """        desc = str(text).expandtabs()
         if desc.endswith("\\n"):
             lines = desc.split("\\n")
             lines.pop()  # remove trailing newline
@@ -645,15 +645,15 @@ V("C12", "C12.R1", "c12-separator-changed", "shroud/util.py",
         self.splicer_path = "::".join(self.splicer_names) + "::"''', "fire", "")
 V("C12", "C12.R2", "c12-user-before-force", "shroud/util.py",
   '''        if force is not None:
-            out.extend(force)
+            out.extend(self._user_code(force))
         elif name in self.splicer_stack[-1]:
             code = self.splicer_stack[-1][name]
-            out.extend(code)''',
+            out.extend(self._user_code(code))''',
   '''        if name in self.splicer_stack[-1]:
             code = self.splicer_stack[-1][name]
-            out.extend(code)
+            out.extend(self._user_code(code))
         elif force is not None:
-            out.extend(force)''', "fire", "order")
+            out.extend(self._user_code(force))''', "fire", "order")
 V("C12", "C12.R2", "c12-default-always-added", "shroud/util.py",
   '''        elif default is not None:
             out.extend(default)
@@ -781,20 +781,12 @@ V("C17", "C17.R1", "c17-raise-valueerror", "shroud/generate.py",
   '''                raise ValueError(
                     "Illegal value '{}' for deref attribute. "''', "fire", "check_deref_attr")
 V("C17", "C17.R1", "c17-raise-notimplemented-const", "shroud/ast.py",
-  '''        """
-        raise NotImplementedError  # virtual function
-
-    def unqualified_lookup(self, name):
-        """Look for symbols within a scope.
-
-        An unqualified''',
-  '''        """
-        raise NotImplemented  # virtual function
-
-    def unqualified_lookup(self, name):
-        """Look for symbols within a scope.
-
-        An unqualified''', "fire", "qualified_lookup")
+  '''        scope, self.symbols, and any scopes added via a 'using' statement.
+        """
+        raise NotImplementedError  # virtual function''',
+  '''        scope, self.symbols, and any scopes added via a 'using' statement.
+        """
+        raise NotImplemented  # virtual function''', "fire", "unqualified_lookup")
 V("C17", "C17.R2", "c17-none-node-deref", "shroud/generate.py",
   '''        if node and arg.metaattrs["assumed-rank"]:''',
   '''        if arg.metaattrs["assumed-rank"]:''', "fire", "_gen_fortran_generic")
@@ -1940,10 +1932,10 @@ V("C16", "C16.R1", "c16-helper-appends-whole-text", "shroud/util.py",
             tag = ""''',
   '''        output.append(self.doxygen_cont + " " + tag + str(text))''', "fire", "lines")
 V("C16", "C16.R1", "c16-silent-splitlines", "shroud/util.py",
-  '''        lines = str(text).split("\\n")
+  '''        lines = str(text).expandtabs().split("\\n")
         if lines[-1] == "" and (len(lines) > 1 or not tag):
             lines.pop()  # remove trailing newline''',
-  '''        lines = str(text).splitlines()
+  '''        lines = str(text).expandtabs().splitlines()
         if not lines and tag:
             lines = [""]''', "silent")
 
@@ -2070,3 +2062,62 @@ V("C14", "C14.R11", "c14-this-call-per-class-only", "shroud/wrapc.py",
   '''                    # CXX_this may be set for this function only.
                     fmt_func.CXX_this_call = fmt_func.CXX_this + "->"
 ''', '', "fire", "CXX_this_call")
+
+
+# ---------------------------------------------------------------------------
+# rows 94-102
+# ---------------------------------------------------------------------------
+V("C03", "C03.R1", "c03-unsigned-parsed-signed", "shroud/typemap.py",
+  '''            f_module=dict(iso_c_binding=["C_LONG_LONG"]),
+            PY_format="K",
+            # #- PY_ctor='PyInt_FromLong({ctor_expr})',''',
+  '''            f_module=dict(iso_c_binding=["C_LONG_LONG"]),
+            PY_format="L",
+            # #- PY_ctor='PyInt_FromLong({ctor_expr})',''', "fire", "signedness")
+V("C14", "C14.R3", "c14-block-without-nodename", "shroud/ast.py",
+  '''        # The declarations of a block are in the scope the block is in.
+        self.nodename = parent.nodename
+''', '', "fire", "parent-attribute:nodename")
+V("C17", "C17.G1", "c17-attribute-after-clearing", "shroud/wrapp.py",
+  '''                self.document_stmts(output, ast, stmt0, stmt1)
+            append_format(
+                output,
+                "static int {PY_setter}("''',
+  '''                self.document_stmts(output, ast, stmt0, intent_blk.name)
+            append_format(
+                output,
+                "static int {PY_setter}("''', "fire", "none-then-attribute")
+V("C17", "C17.R11", "c17-empty-template-parameter-list", "shroud/declast.py",
+  '''        if self.token.typ == "GT":
+            # template<> (explicit specialization)
+            self.error_msg("Expected a template parameter, found GT")
+''', '', "fire", "empty-parameter-list")
+V("C17", "C17.R1", "c17-lookup-raises-bare", "shroud/ast.py",
+  '''        Nodes which are not a scope (typedef, function, variable)
+        have no members.
+        """
+        return None''',
+  '''        Nodes which are not a scope (typedef, function, variable)
+        have no members.
+        """
+        raise NotImplementedError''', "fire", "bare")
+V("C12", "C12.R4", "c12-duplicate-test-full-tag", "shroud/splicer.py",
+  '''                    if begin_subtag in top:''',
+  '''                    if end_tag in top:''', "fire", "duplicate-test-key")
+V("C12", "C12.R6", "c12-user-code-tabs-kept", "shroud/util.py",
+  '''            out.extend(self._user_code(force))''',
+  '''            out.extend(force)''', "fire", "tabs")
+V("C12", "C12.R6", "c12-tab-filter-strips", "shroud/util.py",
+  '''        return [line.expandtabs() if isinstance(line, str) else line
+                for line in lines]''',
+  '''        return [line.expandtabs().strip() if isinstance(line, str) else line
+                for line in lines]''', "fire", "")
+V("C16", "C16.R1", "c16-doxygen-tabs-kept", "shroud/util.py",
+  '''        lines = str(text).expandtabs().split("\\n")''',
+  '''        lines = str(text).split("\\n")''', "fire", "tabs-of-text")
+V("C17", "C17.R15", "c17-helper-lookup-unchecked", "shroud/wrapf.py",
+  '''            if helper not in whelpers.FHelpers:
+                raise RuntimeError(
+                    "No Fortran helper '{}': the type is not supported "
+                    "by the statements '{}'".format(helper, helpers))
+''', '', "fire", "FHelpers")
